@@ -42,6 +42,8 @@ CFG = dict(
         "early_continue_from_source", "origin_from_source", "cellEmit_from_source", "cellEmitTris_from_source",
         "marched_from_source", "marched_tris_from_source", "marched_closed_from_source", "marched_volume_positive_from_source",
         "inside_test_from_source", "vertex_uses_from_source", "section_size_from_source", "cell_body_from_source",
+        # block level (AddField clipping / allocation, block enumeration, final weld): pinned text + partition on the pinned expressions
+        "field_bounds_from_source", "add_field_from_source", "addField_partition_from_source", "weld_call_from_source",
     ],
     # reading aid (ignored by ./check): the closedness result is ONE result under four names, and several listed
     # theorems are intermediate lemmas of it rather than independent clauses of the property
